@@ -237,6 +237,40 @@ def check_libs(res, hbin, d):
                       {"kind": "input", "input": "/repo/vhdl_libraries", "diagnostic": e})
 
 
+LOOP_RE = None
+
+
+def loop_parameter_call_site(text, d):
+    """F34: the diagnostic is on a call that has, as an actual, the parameter of an enclosing
+    `for <id> in <literal> to <literal> loop` (the printer puts every statement on a line of its own)."""
+    import re
+    lines = text.split("\n")
+    if d["sl"] >= len(lines):
+        return False
+    stack = []
+    for l in lines[:d["sl"]]:
+        m = re.match(r"^for (n\d+) in \d+ to \d+ loop$", l)
+        if m:
+            stack.append(m.group(1))
+        elif re.match(r"^while .* loop$", l):
+            stack.append(None)
+        elif l == "end loop;":
+            if stack:
+                stack.pop()
+        elif re.match(r"^(end (function|procedure|process);)$", l):
+            stack = []
+    rest = lines[d["sl"]][d["sc"]:]
+    return any(x is not None and re.search(r"\b%s\b" % x, rest) for x in stack)
+
+
+def known_match(prop, **kw):
+    for e in known_findings(prop):
+        m = e.get("match", {})
+        if e.get("kind") == "open" and all(m.get(k) == v for k, v in kw.items()):
+            return e
+    return None
+
+
 def main(tier, replay=None):
     res = Result(PROP, tier, level="other")
     d = rundir(PROP)
@@ -248,6 +282,8 @@ def main(tier, replay=None):
     if replay:
         rp = json.load(open(replay))
         reqs = [rp["request"]] if "request" in rp else []
+        if not reqs:
+            check_libs(res, hbin, d)      # a recorded case about the bundled libraries
     else:
         check_libs(res, hbin, d)
         n = 300 if tier == "quick" else 4000
@@ -279,6 +315,7 @@ def main(tier, replay=None):
     fell = 0
     nviol = 0
     revalidated = 0
+    known_hits = Counter()
     for pid in b.order:
         base = pid.rsplit(".", 1)[0]
         variant = pid.rsplit(".", 1)[1]
@@ -305,8 +342,17 @@ def main(tier, replay=None):
         elif o["panic"]:
             problem = "Project::analyse panics on a valid program"
         elif errors_of(o):
-            e = errors_of(o)[0]
-            problem = "error diagnostic on a program the reference calls Valid: " + describe_diag(e)
+            es = errors_of(o)
+            # known finding F34 (matched by code + call site; everything else stays a violation)
+            f34 = [e for e in es if e["code"] == "AmbiguousCall" and e["file"] in texts
+                   and loop_parameter_call_site(texts[e["file"]], e)]
+            kf = known_match(PROP, code="AmbiguousCall", site_kind="call_with_literal_range_loop_parameter_actual") if f34 else None
+            if kf is not None:
+                known_hits[kf["id"]] += len(f34)
+                es = [e for e in es if e not in f34]
+            if es:
+                e = es[0]
+                problem = "error diagnostic on a program the reference calls Valid: " + describe_diag(e)
         if rewrites and m.get("valid") != "true":
             nviol += 1
             if nviol <= 6:
@@ -331,6 +377,10 @@ def main(tier, replay=None):
                               "validity of %s (%s)" % (pid, problem), dict(rp, kind="correspondence",
                                                                          correspondence="extracted Gen/Sem vs vm_compute",
                                                                          log=clog[-1500:]), no_failing_input=True)
+    for kid, cnt in sorted(known_hits.items()):
+        e = [x for x in known_findings(PROP) if x["id"] == kid][0]
+        res.known_finding("%s (%s; %d diagnostics in this run)" % (e.get("open", kid), kid, cnt))
+    res.coverage["known_findings_hit"] = dict(known_hits)
     # extraction vs Coq: a sample of programs is generated, checked and printed inside Coq
     if not replay:
         sample = [r for r in reqs if parse_request(r)["pid"].startswith("g")][:3 if tier == "quick" else 8]
@@ -359,7 +409,7 @@ def main(tier, replay=None):
         res.violation("the generator fell back to the trivial program in %d of %d cases" % (fell, stats["generated"]),
                       {"kind": "correspondence", "correspondence": "generator yield"}, no_failing_input=True)
     res.coverage.update({
-        "programs": dict(stats), "rewrites_applied": dict(rw_kinds), "generator_fallbacks": fell,
+        "programs": sum(stats.values()), "programs_by_kind": dict(stats), "rewrites_applied": dict(rw_kinds), "generator_fallbacks": fell,
         "vhdl_files": len(b.files), "vhdl_lines": b.nlines(), "revalidated_in_coq_before_violation": revalidated,
         "runner_s": round(t_gen, 1), "analysis_s": round(t_an, 1),
         "exhaustive": False,
